@@ -200,7 +200,7 @@ def classify(res):
 # Replay
 # --------------------------------------------------------------------------------------------
 
-def concrete_playback(crate, harness, cbmc_args=(), features=None, timeout=900, mem_gb=14):
+def concrete_playback(crate, harness, cbmc_args=(), features=None, timeout=900, mem_gb=14, kani_args=()):
     """Ask Kani for concrete values of a failing harness; returns list of (check, [[bytes]...])."""
     d = crate_dir(crate)
     tdir = os.path.join(WORK, "target-" + crate)
@@ -208,6 +208,7 @@ def concrete_playback(crate, harness, cbmc_args=(), features=None, timeout=900, 
            "-Z", "concrete-playback", "--concrete-playback=print", "-Z", "unstable-options"]
     if features:
         cmd += ["--features", features]
+    cmd += list(kani_args)
     if cbmc_args:
         cmd += ["--cbmc-args"] + list(cbmc_args)
     rc, out, _ = sh(cmd, cwd=d, timeout=timeout, mem_gb=mem_gb,
@@ -477,7 +478,7 @@ def check_kani_property(prop, spec, tier):
             # (trace generation needs more memory and time than the verdict did) is repeated ONCE with 28 GB / 45 min
             big = _attempt > 0 and getattr(concrete_playback, "last_crashed", False)
             tests = concrete_playback(gcrate, h, cbmc_args=g.get("cbmc_args", ()), features=features,
-                                      timeout=2700 if big else 900, mem_gb=28 if big else 14)
+                                      timeout=2700 if big else 900, mem_gb=28 if big else 14, kani_args=g.get("kani_args", ()))
             if [t for t in tests if not t["is_cover"]]:
                 break
             if big:
